@@ -50,6 +50,8 @@ class FakeSock:
         self.recv_requests.append(n)
         if self.closed:
             raise AssertionError("recv on closed transport")
+        if isinstance(n, int) and n == 0:
+            return b""
         if not self.incoming:
             return b""
         c = self.incoming.pop(0)
